@@ -592,8 +592,10 @@ def runCase (e : SExp) : Array String :=
         let ta := if tx.length ≤ ty.length then tx else ty
         let td := if tx.length ≤ ty.length then ty else tx
         if T.isInternalAt td && ta.isSuffixOf td && ta != td then
-          o.put "hgain" (taxS ta ++ ">" ++ taxS td ++ "=" ++
+          let o := o.put "hgain" (taxS ta ++ ">" ++ taxS td ++ "=" ++
             toString ((hs.map fun (f : Taxon × SL) => if f.1.isSuffixOf ta then 0 else lineagesAt td f.1 f.2).sum))
+          -- ... and about the number of LOST genes: lineages at a that are extinct at d (theorem C06_lost_count_is_the_history)
+          o.put "hlost" (taxS ta ++ ">" ++ taxS td ++ "=" ++ toString ((hs.map fun (f : Taxon × SL) => extinctAt ta td f.1 f.2).sum))
         else o
       | _ => o) o
     o.lines.push (cid ++ "\tend\t")
